@@ -22,6 +22,9 @@ REPO = Path(os.environ.get("VERIF_REPO", "/repo")).resolve()
 LEAN = VERIF / "lean"
 DRIVER = LEAN / ".lake" / "build" / "bin" / "driver"
 WORK = VERIF / ".work"
+# where evidence and replay files go; the registered commands leave this unset (= /verif itself).  The seeded-change
+# runner points it at a scratch directory so that a run against a deliberately broken tree never overwrites evidence.
+OUT = Path(os.environ.get("VERIF_OUT", str(VERIF))).resolve()
 ACCEPTED_AXIOMS = {"propext", "Classical.choice", "Quot.sound"}
 TRUSTED_BASE = [
     "Lean 4.33 kernel; Mathlib v4.33 lemmas (single-module imports)",
@@ -333,17 +336,17 @@ class Ctx:
         preds = [f for f in unknown if f["kind"] == "predicate"]
         others = [f for f in unknown if f["kind"] != "predicate"]
         violations = 0
-        (VERIF / "replays").mkdir(exist_ok=True)
+        (OUT / "replays").mkdir(parents=True, exist_ok=True)
         if preds:
             # one replay per distinct tag
             by_tag = {}
             for f in preds:
                 by_tag.setdefault(f["tag"], f)
             for i, (tag, f) in enumerate(sorted(by_tag.items())):
-                path = VERIF / "replays" / f"{self.prop}-{safe(tag)}-{self.seed}.json"
+                path = OUT / "replays" / f"{self.prop}-{safe(tag)}-{self.seed}.json"
                 path.write_text(json.dumps({"property": self.prop, "kind": "failing-input", "tag": tag,
                                             "what": f["what"], "case": f["case"], "seed": self.seed,
-                                            "replay": f"./check replay {path.relative_to(VERIF)}"},
+                                            "replay": f"./check replay {os.path.relpath(path, VERIF)}"},
                                            indent=1, default=jsonable))
                 lines.append(f"VIOLATION property={self.prop} replay={path}")
                 violations += 1
@@ -353,7 +356,7 @@ class Ctx:
             for f in others:
                 by_tag.setdefault((f["kind"], f["tag"]), f)
             (kind, tag), f = sorted(by_tag.items())[0]
-            path = VERIF / "replays" / f"{self.prop}-{kind}-{safe(tag)}-{self.seed}.json"
+            path = OUT / "replays" / f"{self.prop}-{kind}-{safe(tag)}-{self.seed}.json"
             path.write_text(json.dumps({"property": self.prop, "kind": kind + "-broken", "tag": tag,
                                         "no_longer_checks": f["what"], "case": f["case"], "seed": self.seed,
                                         "all_broken": [{"kind": k, "tag": t, "what": g["what"]} for (k, t), g in sorted(by_tag.items())][:20],
@@ -393,8 +396,8 @@ class Ctx:
             "coverage": cov, "assumptions": self.assumptions, "wall_s": round(time.time() - self.t0, 2),
             "violations": violations,
         }
-        (VERIF / "evidence").mkdir(exist_ok=True)
-        (VERIF / "evidence" / f"{self.prop}.json").write_text(json.dumps(ev, indent=1, default=jsonable))
+        (OUT / "evidence").mkdir(parents=True, exist_ok=True)
+        (OUT / "evidence" / f"{self.prop}.json").write_text(json.dumps(ev, indent=1, default=jsonable))
 
 
 def safe(s: str) -> str:
